@@ -3,6 +3,7 @@ package main
 import (
 	"fmt"
 	"strings"
+	"time"
 
 	"verifsim/kernel"
 	"verifsim/parsersim"
@@ -78,6 +79,7 @@ func c18Prop(race bool) *pProp {
 			}
 			return reqs
 		},
+		post:    c18FreshSolo,
 		nontriv: func(o *parsersim.Response) bool { return o.Stats["schedules_with_preemption"] > 0 },
 		dkey: func(req *parsersim.Request, resp *parsersim.Response) string {
 			return req.Parser + "|" + strings.Join(resp.Hashes, ",")
@@ -101,4 +103,58 @@ func runC18(tier string) int {
 		return code1
 	}
 	return code2
+}
+
+// c18FreshSolo re-runs, for a sample of the schedules, every call alone in a
+// fresh process and compares with what the call returned in the concurrent run.
+// "Alone" then also means alone in the process: state that the package keeps
+// between calls cannot hide on both sides of the comparison.
+func c18FreshSolo(pp *pProp, pw *parserWorld, reqs []*parsersim.Request, owner []*genParser, outs []pOutcome, env []string, rep *reporter, seed uint64, stats map[string]int) int {
+	var idx []int
+	var solo []*parsersim.Request
+	for i, o := range outs {
+		if i%3 != 0 || o.Status != "ok" || len(o.Resp.Digests) == 0 {
+			continue
+		}
+		rq := *reqs[i]
+		rq.Kind = "c18solo"
+		rq.ID = reqs[i].ID + "-solo"
+		idx = append(idx, i)
+		solo = append(solo, &rq)
+	}
+	souts := runParserCases(pw, solo, 120*time.Second, env, 1)
+	runs := 0
+	reported := 0
+	for k, so := range souts {
+		i := idx[k]
+		if so.Status != "ok" {
+			continue
+		}
+		runs += so.Resp.Runs
+		stats["schedules_compared_with_fresh_process_solo"]++
+		a, b := outs[i].Resp.Digests, so.Resp.Digests
+		diff := ""
+		for ci := range a {
+			for cj := range a[ci] {
+				if ci < len(b) && cj < len(b[ci]) && a[ci][cj] != b[ci][cj] && a[ci][cj] != "capped" && b[ci][cj] != "capped" && a[ci][cj] != "lost" {
+					diff = fmt.Sprintf("client %d call %d", ci, cj)
+				}
+			}
+		}
+		if diff == "" {
+			continue
+		}
+		stats["fresh_process_solo_differs"]++
+		if reported >= 3 {
+			continue
+		}
+		reported++
+		gp := owner[i]
+		v := &violation{Property: pp.id, Class: "differs-from-fresh-solo", Seed: seed, Case: reqs[i].ID, Kind: "parser",
+			Message: fmt.Sprintf("%s returned something else in the concurrent run than the same call run alone in a fresh process [grammar %s flags %v]", diff, strings.TrimSpace(specSummary(gp)["grammar"].(string)), gp.Flags),
+			Attrs:   map[string]string{"class": "differs-from-fresh-solo", "dedupe": "differs-from-fresh-solo|" + gp.Name},
+			Replay:  &parserReplay{Grammar: gp.G, Text: gp.Text, Flags: gp.Flags, Request: reqs[i], Race: pp.race, Expected: "differs-from-fresh-solo", FreshSolo: true}}
+		rep.add(v)
+	}
+	return runs
 }
